@@ -1,6 +1,6 @@
 From Coq Require Import List NArith Bool.
 From V.gen Require Consts.
-From V.C16 Require Import Model Proofs.
+From V.C16 Require Import Model Proofs Obl.
 Import ListNotations.
 Open Scope N_scope.
 From V.C16 Require Import Properties.
@@ -37,15 +37,23 @@ Check (C16_drain_progress :
   snd (serve s q0) = true ->
   (q <> q0 -> aget q (eng (fst (fst (serve s q0)))) = aget q (eng s)) /\
   (qw (aget q0 (eng (fst (fst (serve s q0))))) < qw (aget q0 (eng s)))%nat).
+Check (C16_at_most_one :
+  forall g m es k q p,
+  fresh_ids [] es -> cmds_ok g es -> (cnt (fst (run g (st0 m) es)) k q p <= 1)%nat).
+Check (C16_exactly_one :
+  forall g m es q x p,
+  1 <= g_alpha g -> fresh_ids [] es -> cmds_ok g es ->
+  let s := fst (run g (st0 m) es) in
+  aget q (eng s) = Some x -> In p (waiting x) -> cnt s (negb (is_track x)) q p = 1%nat).
 Check (C16_quorum_honest :
   forall g m es q,
-  fresh_ids [] es ->
+  fresh_ids [] es -> cmds_ok g es ->
   let outs := snd (run g (st0 m) es) in
   In (OPutSuccess q) outs \/ In (OProvSuccess q) outs ->
   exists targets qr S,
     find_quorum q es = Some qr /\ In (OTrack q targets) outs /\ NoDup S /\
     clamp qr (N.of_nat (length targets)) <= N.of_nat (length S) /\
-    (forall p, In p S -> In (q, p) (sends g (st0 m) es) /\ In p targets)).
+    (forall p, In p S -> In (q, p) (put_sends g (st0 m) es) /\ In p targets)).
 Check (C16_default_config :
   1 <= V.gen.Consts.PARALLELISM_FACTOR /\ 0 < V.gen.Consts.KAD_READ_TIMEOUT_SECS /\
   0 < V.gen.Consts.KAD_WRITE_TIMEOUT_SECS).
